@@ -29,15 +29,21 @@ func TestMain(m *testing.M) {
 	runtime.GOMAXPROCS(procs)
 	rec.Label("GOMAXPROCS=" + []string{"1", "2", "4", "16"}[rec.Shard()%4])
 	fast.New()
+	if conc.IsReplayChild() {
+		conc.ReplayChild(rec, cfg())
+	}
 	os.Exit(vlib.Main(m, rec))
 }
 
 func known(p gobatch.Program, got, want gobatch.Result) string { return "" }
 
 func cfg() gobatch.Config {
-	return gobatch.Config{Rec: rec, Name: "c10", N: rec.Scale(150, 1500), Gen: Generate, Known: known, Interp: conc.Run(3, 5)}
+	return gobatch.Config{Rec: rec, Name: "c10", N: rec.Scale(150, 1500), Gen: Generate, Known: known, Interp: conc.Run(rec, 3, 5)}
 }
 
-func TestGoroutinesAndChannels(t *testing.T) { gobatch.Run(t, cfg()) }
+func TestGoroutinesAndChannels(t *testing.T) {
+	Opts.NoConcurrentAddressOf = rec.Known("F-C10-1")
+	gobatch.Run(t, cfg())
+}
 
-func TestReplays(t *testing.T) { rec.RunReplays(t, gobatch.ReplayerWith(cfg())) }
+func TestReplays(t *testing.T) { rec.RunReplays(t, conc.SubprocessReplayer()) }
